@@ -125,6 +125,19 @@ def roundtrip(part, fmt, n, offset, kind, bonded, route, tmpdir):
     if fmt == "sdf":
         part.trace()
         check_sdf_text(part, text, zs, pos, key, what, case)
+    else:
+        # the XYZ text itself, read by the format's definition (count line, comment line, one "symbol x y z" record per atom)
+        part.trace()
+        lines = text.split("\n")
+        try:
+            ok = int(lines[0].split()[0]) == len(zs) and len([l for l in lines[2:] if l.strip()]) == len(zs)
+            for i in range(len(zs)):
+                tok = lines[2 + i].split()
+                ok = ok and tok[0].capitalize() == ELEMENTS[zs[i] - 1][0] and np.abs(np.array([float(t) for t in tok[1:4]]) - pos[i]).max() <= 5.0e-13 * (1 + 1e-6) + 1e-15
+        except Exception:
+            ok = False
+        if not ok:
+            part.fail("xyz-text:%s" % key, "%s: the written XYZ text does not describe the molecule (count line, record count, symbols or coordinates)" % what, case)
     try:
         if route == "string":
             if fmt == "xyz":
